@@ -81,6 +81,8 @@ def make_generator(nd, cfg):
         return nd.MaxStepGenerator(base_step=1.0, num_steps=12)
     if cfg['step'] == 'scalar':
         return nd.MinStepGenerator(base_step=0.0078125, step_nom=1.0)
+    if cfg['step'] == 'short':      # the 'scalar' steps cut down to a two-row difference table
+        return nd.MinStepGenerator(base_step=0.0078125, step_nom=1.0, num_steps=cfg['num_steps'])
     if cfg['step'] == 'near':       # the 'scalar' steps with a step ratio 2e-4 above the default one
         return nd.MinStepGenerator(base_step=0.0078125, step_nom=1.0,
                                    step_ratio=cfg['ratio'])
@@ -101,7 +103,7 @@ def construct(nd, cfg, shared_gen=None):
         kw['step'] = shared_gen
     elif cfg['step'] == 'scalar':
         kw['step'] = 0.0078125
-    elif cfg['step'] in ('gen', 'near'):
+    elif cfg['step'] in ('gen', 'near', 'short'):
         kw['step'] = make_generator(nd, cfg)
     return cls(f, **kw)
 
@@ -188,6 +190,23 @@ def history_case(draw):
     return dict(kind='history', ops=ops, fresh=draw(st.integers(0, 39)) == 0)
 
 
+# configurations of the sibling cases: (method, n, order, number of steps that leaves exactly two
+# rows in the difference table)
+SIBLINGS = [('central', 1, 2, 2), ('central', 2, 2, 2), ('central', 1, 4, 3), ('forward', 1, 2, 3),
+            ('backward', 1, 2, 3), ('forward', 2, 2, 4), ('forward', 1, 1, 2), ('complex', 1, 2, 2)]
+
+
+@st.composite
+def sibling_case(draw):
+    """Two objects that differ only in the number of steps (two difference rows vs the full
+    sequence; same step ratio, method order and requested number of Richardson terms), called one
+    after the other: the second result must be what a pristine interpreter returns."""
+    method, n, order, k = draw(st.sampled_from(SIBLINGS))
+    return dict(kind='sibling', fun=draw(st.sampled_from(['f0', 'f1', 'f2'])), method=method, n=n, order=order,
+                num_steps=k + draw(st.sampled_from([0, 0, 1])), xid=draw(st.integers(0, 5)),
+                short_first=draw(st.sampled_from([True, True, False])), repeat=draw(st.integers(1, 2)))
+
+
 @st.composite
 def thread_case(draw):
     T = draw(st.sampled_from([2, 4, 8, 16]))
@@ -223,13 +242,44 @@ class C09(Prop):
     examples = {'quick': 60, 'thorough': 500}
 
     def strategy(self, tier):
-        return st.one_of(history_case(), history_case(), history_case(), thread_case())
+        return st.one_of(history_case(), history_case(), history_case(), history_case(), history_case(),
+                         history_case(), thread_case(), thread_case(), sibling_case())
 
     # ------------------------------------------------------------------------------
     def check(self, case, ctx):
         if case['kind'] == 'threads':
             return self._check_threads(case, ctx)
+        if case['kind'] == 'sibling':
+            return self._check_sibling(case, ctx)
         return self._check_history(case, ctx)
+
+    def _check_sibling(self, case, ctx):
+        import numdifftools as nd
+        from numdifftools import finite_difference as fd
+        base = dict(cls='Derivative', fun=case['fun'], method=case['method'], n=case['n'], order=case['order'])
+        short = dict(base, step='short', num_steps=case['num_steps'])
+        full = dict(base, step='scalar')
+        seq = [short, full] if case['short_first'] else [full, short]
+        seq = seq * case['repeat']
+        xid = case['xid']
+        fd.FD_RULES.clear()
+        model_cache = {}
+        with warnings.catch_warnings():
+            warnings.simplefilter('ignore')
+            for i, cfg in enumerate(seq):
+                with ctx.lib('no-exception', 'sibling call %s' % cfg):
+                    with np.errstate(all='ignore'):
+                        got = record_of(construct(nd, cfg)(point_of(cfg, xid)))
+                if i == 0:
+                    continue
+                # the reference comes from a pristine interpreter: process-wide state this check does
+                # not know about cannot leak into it
+                self._compare(got, self._model(cfg, xid, None, model_cache, True),
+                              'call #%d (%s steps) after a sibling with %s' % (
+                                  i, 'two-row' if cfg['step'] == 'short' else 'all', seq[i - 1]['step']))
+        ctx.count('op=sibling (%s first)' % ('short' if case['short_first'] else 'full'))
+        ctx.nontriv(dict(sibling=[case['fun'], case['method'], case['n'], case['order'], case['num_steps'], xid,
+                                  case['short_first']]))
 
     def _model(self, cfg, xid, gen_of, cache, fresh_proc):
         key = json.dumps([cfg, xid, gen_of], sort_keys=True)
